@@ -1071,6 +1071,9 @@ func (x *scalarExec) value(v ssa.Value, env map[ssa.Value]int64, prev *ssa.Basic
 			if b >= 0 && b < 63 {
 				return a >> uint(b), true
 			}
+			if b >= 63 && a >= 0 {
+				return 0, true // a non-negative value below 2^63 shifted right by 63 or more
+			}
 		}
 	case *ssa.Call:
 		g := t.Call.StaticCallee()
